@@ -21,11 +21,29 @@
 //     sub-step (where the flush job does not hold the family mutex) the harness runs the other
 //     actors of the node - an append and/or single steps of the local replicator - on the flush
 //     job's goroutine, i.e. between freezing the memory database and the kv commit.
+//
+// Two further dimensions (wave 5):
+//   - 1-3 write-ahead logs per data family: the family keeps one sequence per LEADER and the node has one
+//     log per (family, leader): <wal>/<db>/<shard>/<family>/<leader>. The node is leader of the shard
+//     (leader 1 = this node: write rpc -> BuildReplicaForLeader + WriteLog) and/or follower of other
+//     leaders (replica rpc -> BuildReplicaForFollower + ReplicaLog), e.g. after a leader failover inside
+//     the family's time window. Every log has its own local replicator, acknowledgement and stored
+//     sequence; appends / replication steps of the logs interleave freely; all statements of the
+//     property are checked per log.
+//   - I/O faults inside a flush cycle: one intercepted table-file / manifest-record operation of a flush
+//     sub-step (metadata store, shard index, family data) fails (EIO: the operation is not performed).
+//     The cycle is driven in the production order, either sub-step by sub-step (the harness then does
+//     what dataFlushChecker.doFlush does with the result: a failed metadata or index flush abandons the
+//     cycle) or as ONE operation through the production job (tsdb.VerifFlushDatabaseSync = the requests
+//     of Database.Flush run by dataFlushChecker.doFlush on this goroutine). Whatever failed, a crash
+//     afterwards must not lose an entry: nothing of a failed cycle may acknowledge the log unless the
+//     rows AND their metadata are durable.
 package c07
 
 import (
 	"bytes"
 	"context"
+	"errors"
 	"fmt"
 	"math"
 	"os"
@@ -44,6 +62,7 @@ import (
 	"pgregory.net/rapid"
 
 	"github.com/lindb/lindb/config"
+	"github.com/lindb/lindb/coordinator/storage"
 	"github.com/lindb/lindb/kv"
 	"github.com/lindb/lindb/kv/table"
 	"github.com/lindb/lindb/kv/version"
@@ -52,6 +71,7 @@ import (
 	"github.com/lindb/lindb/pkg/queue"
 	"github.com/lindb/lindb/pkg/timeutil"
 	"github.com/lindb/lindb/replica"
+	"github.com/lindb/lindb/rpc"
 	"github.com/lindb/lindb/tsdb"
 	"github.com/lindb/lindb/verifharness/sim/crash"
 	"github.com/lindb/lindb/verifharness/sim/ev"
@@ -72,11 +92,33 @@ const (
 	// known finding (DESIGN.md D8): a name created after the metadata freeze and before the index
 	// freeze of one flush cycle is durable in index+data but in no durable dictionary.
 	sigD8 = "C07/name-created-inside-flush-cycle-persisted-with-data"
+	// finding of wave 5: after a FAILED metadata (or shard index) flush the stores keep their frozen part;
+	// the next flush does not freeze again, writes only that old part and reports success - what was
+	// created in between is durable in no dictionary / index although the cycle goes on to the data flush.
+	sigStale = "C07/name-created-after-failed-metadata-or-index-flush-not-frozen-by-next-flush"
+	// finding of wave 5: the local replicators of the logs of two leaders of one family (one goroutine
+	// per log) write into the family's memory database at the same time; dataFamily.WriteRows does not
+	// serialise them (memdb "WriteRow must be called after WithLock" - nobody calls WithLock): rows are lost.
+	sigConc = "C07/concurrent-replay-of-logs-of-two-leaders-loses-rows-in-memdb"
 )
+
+// heldPartition is a log partition whose free running replication loop is not started: the harness
+// runs the steps of the loops of all logs itself, one at a time.
+type heldPartition struct{ replica.Partition }
+
+func (h *heldPartition) StartReplica() {}
 
 var (
 	baseTime = time.Date(2023, 5, 1, 10, 0, 0, 0, time.UTC).UnixMilli()
 	dbSeq    atomic.Int64
+	// the leaders whose logs the data family has on this node (node 1): own writes (leader 1) and/or
+	// logs replicated from other leaders
+	leaderSets = [][]models.NodeID{
+		{1}, {1}, {1}, {2},
+		{1, 2}, {1, 2}, {1, 2}, {1, 3}, {2, 3},
+		{1, 2, 3},
+	}
+	errInjected = errors.New("injected I/O fault: input/output error")
 )
 
 // ---- log entries ------------------------------------------------------------------------------------
@@ -120,86 +162,179 @@ func message(i, ref int) ([]byte, error) {
 
 // ---- world --------------------------------------------------------------------------------------------
 
-type world struct {
-	t        *rapid.T
-	dir      string
-	db       string
-	n        *node.Node
-	shard    tsdb.Shard
-	family   tsdb.DataFamily
-	fq       queue.FanOutQueue
-	part     replica.Partition
-	walPath  string
-	im       *crash.Imager
-	ops      []string
-	appended int // entries whose WriteLog returned
-	applied  int // entries handed to the local replicator
-	cycle    int // next sub-step of the current flush cycle: 0 meta, 1 index, 2 family
-	// names first applied between the metadata sub-step and the index sub-step of a cycle (D8 shape)
-	refs       []int // refs[i] = entry whose names entry i writes into (== i: introduces its own)
-	d8Exposed  map[int]bool
-	classes    map[string]int
-	appendedAt []int // per history op index: number of entries appended before it started
-	thorough   bool
-	logRemoved bool
+// logSt is the write-ahead log of the data family for one leader.
+type logSt struct {
+	leader     models.NodeID
+	path       string
+	fq         queue.FanOutQueue
+	part       replica.Partition
+	entries    []int // global entry numbers in sequence order (incl. an append in flight)
+	appended   int   // records whose append returned
+	applied    int   // records handed to the local replicator
+	removedSeq int   // crash.Point.Seq of the image taken when the removal task removed the partition (-1: not removed)
+}
 
-	kinds []string // kinds[i] == "" : entry i is a write; else the kind of record the replicator must skip
+// entryT is one record of one log; the global number i of the entry selects the digit of the sum cell.
+type entryT struct {
+	log  int    // index into world.logs
+	seq  int    // sequence in that log
+	ref  int    // entry whose names the entry writes into (== i: introduces its own)
+	kind string // "" : a write; else the kind of record the replicator must skip
+}
+
+type world struct {
+	t       *rapid.T
+	dir     string
+	db      string
+	n       *node.Node
+	shard   tsdb.Shard
+	family  tsdb.DataFamily
+	leaders []models.NodeID
+	logs    []*logSt // parallel to leaders; nil until the first append to the log of that leader
+	entries []entryT
+	im      *crash.Imager
+	ops     []string
+	cycle   int // next sub-step of the current flush cycle: 0 meta, 1 index, 2 family
+	// names first applied between the metadata sub-step and the index sub-step of a cycle (D8 shape)
+	d8Exposed    map[int]bool // by owner of the names
+	namesApplied map[int]bool // owners whose names some applied entry has written
+	classes      map[string]int
+	appendedAt   [][]int // per history op index: number of records appended to each log before it started
+	thorough     bool
+
 	// racing inside a flush sub-step (harness-owned interleaving at the table seam)
 	subStep  string      // flush sub-step in flight ("" = none)
 	race     []racePoint // plan of the sub-step in flight
 	raceSeen int         // eligible seam events of the sub-step seen so far
 	racing   bool
+	cycleOp  bool                   // the production flush job is in flight: the sub-step follows from the store an operation works on
+	plans    map[string][]racePoint // race plans of the sub-steps of the production flush job
+	// I/O fault of the flush sub-step in flight
+	fault      *faultPlan
+	faultSeen  int
+	faultFired string // operation which failed ("" = none yet)
+	// stale[s]: an operation of sub-step s (flushMeta / flushIndex) failed and no later run of s completed
+	stale map[string]bool
 	// loss windows: positions in im.Points at which a state began in which a wrong acknowledgement /
 	// stored sequence would lose entries at a crash (until the next data flush commits)
-	raceWindows []int // a replication step ran inside a data flush after the freeze
-	skipWindows []int // a record was skipped while earlier applied entries were not flushed
-	imageTags   map[int][]string
-	flushRanges [][2]int // positions in im.Points of every flush sub-step
+	raceWindows  []int // a replication step ran inside a data flush after the freeze
+	skipWindows  []int // a record was skipped while earlier applied entries were not flushed
+	faultWindows []int // an operation of a flush sub-step failed
+	imageTags    map[int][]string
+	flushRanges  [][2]int // positions in im.Points of every flush sub-step
 }
 
 // appendSpec holds the draws of one append (drawn before the operation which performs it runs).
 type appendSpec struct {
 	reuse bool
 	pick  int
+	log   int // which log (modulo the number of leaders / of logs with pending records)
 }
 
 // racePoint: at the at-th eligible seam event of a flush sub-step the harness performs len(steps)
-// replication steps; a step whose log has nothing pending appends an entry (its spec) first.
+// replication steps; a step which finds nothing pending in any log appends an entry (its spec) first.
 type racePoint struct {
 	at    int
 	steps []appendSpec
 }
 
-func (w *world) bad(i int) bool { return i >= 0 && i < len(w.kinds) && w.kinds[i] != "" }
+// faultPlan: the at-th operation of kind op of the flush sub-step fails.
+type faultPlan struct {
+	step string // sub-step the fault belongs to
+	op   string
+	at   int
+}
 
-func (w *world) pending() int64 {
-	r := replica.VerifReplicator(w.part, nodeID)
-	if r == nil {
-		return 0
+func (w *world) bad(i int) bool { return i >= 0 && i < len(w.entries) && w.entries[i].kind != "" }
+
+func (w *world) replicator(lg *logSt) replica.Replicator {
+	return replica.VerifReplicator(lg.part, nodeID)
+}
+
+// pendingLogs returns the logs whose local replicator has something to consume.
+func (w *world) pendingLogs() (rs []int) {
+	for li, lg := range w.logs {
+		if lg == nil || lg.removedSeq >= 0 {
+			continue
+		}
+		if r := w.replicator(lg); r != nil && r.Pending() > 0 {
+			rs = append(rs, li)
+		}
 	}
-	return r.Pending()
+	return rs
+}
+
+func (w *world) liveLogs() (rs []int) {
+	for li, lg := range w.logs {
+		if lg != nil && lg.removedSeq < 0 {
+			rs = append(rs, li)
+		}
+	}
+	return rs
 }
 
 func (w *world) logf(format string, args ...any) { w.ops = append(w.ops, fmt.Sprintf(format, args...)) }
 
 func (w *world) fatalf(format string, args ...any) {
 	w.t.Helper()
-	w.t.Fatalf(format+"\nhistory:\n  %s", append(args, strings.Join(w.ops, "\n  "))...)
+	w.t.Fatalf(format+"\nhistory (logs of leaders %v):\n  %s", append(args, w.leaders, strings.Join(w.ops, "\n  "))...)
 }
 
 func (w *world) begin(name string) {
-	w.appendedAt = append(w.appendedAt, w.appended)
+	counts := make([]int, len(w.leaders))
+	for li, lg := range w.logs {
+		if lg != nil {
+			counts[li] = lg.appended
+		}
+	}
+	w.appendedAt = append(w.appendedAt, counts)
 	w.im.Begin(len(w.appendedAt)-1, name)
 }
 
 func (w *world) end() { w.im.End() }
 
-func walDir(cfg config.WAL, db string) string {
-	return filepath.Join(cfg.Dir, db, "0", commontimeutil.FormatTimestamp(baseTime, commontimeutil.DataTimeFormat4), strconv.Itoa(int(nodeID)))
+func walDir(cfg config.WAL, db string, leader models.NodeID) string {
+	return filepath.Join(cfg.Dir, db, "0", commontimeutil.FormatTimestamp(baseTime, commontimeutil.DataTimeFormat4), strconv.Itoa(int(leader)))
+}
+
+// openLog creates the log of a leader at its first record, the way the write rpc (this node is the
+// leader) resp. the replica rpc (this node follows the leader) do.
+func (w *world) openLog(li int) *logSt {
+	if w.logs[li] != nil {
+		return w.logs[li]
+	}
+	leader := w.leaders[li]
+	lg := &logSt{leader: leader, path: walDir(config.GlobalStorageConfig().WAL, w.db, leader), removedSeq: -1}
+	var err error
+	lg.fq, err = queue.NewFanOutQueue(lg.path, 0)
+	if err != nil {
+		w.fatalf("harness: wal: %v", err)
+	}
+	lg.part = replica.NewPartition(context.Background(), w.shard, w.family, nodeID, lg.fq, nil, nil)
+	if leader == nodeID {
+		err = lg.part.BuildReplicaForLeader(nodeID, []models.NodeID{nodeID})
+	} else {
+		err = lg.part.BuildReplicaForFollower(leader, nodeID)
+	}
+	if err != nil {
+		w.fatalf("harness: build replica: %v", err)
+	}
+	w.logs[li] = lg
+	n := 0
+	for _, l := range w.logs {
+		if l != nil {
+			n++
+		}
+	}
+	w.logf("openLog leader=%d (%s)", leader, map[bool]string{true: "this node is the leader", false: "this node follows the leader"}[leader == nodeID])
+	if n > 1 {
+		w.classes["family-gets-log-of-another-leader"]++
+	}
+	return lg
 }
 
 func drawAppendSpec(t *rapid.T) appendSpec {
-	sp := appendSpec{reuse: rapid.Bool().Draw(t, "reuseNames")}
+	sp := appendSpec{reuse: rapid.Bool().Draw(t, "reuseNames"), log: rapid.IntRange(0, 5).Draw(t, "log")}
 	if sp.reuse {
 		sp.pick = rapid.IntRange(0, maxEntries-1).Draw(t, "ref")
 	}
@@ -208,13 +343,13 @@ func drawAppendSpec(t *rapid.T) appendSpec {
 
 // appendWrite appends the next write entry; opName is the history operation the images belong to.
 func (w *world) appendWrite(sp appendSpec, opName, note string) {
-	i := w.appended
+	i := len(w.entries)
 	ref := i
 	if sp.reuse {
 		// write into the series of an earlier entry that introduced names
 		var owners []int
-		for j, r := range w.refs {
-			if r == j {
+		for j, e := range w.entries {
+			if e.ref == j {
 				owners = append(owners, j)
 			}
 		}
@@ -226,45 +361,60 @@ func (w *world) appendWrite(sp appendSpec, opName, note string) {
 	if err != nil {
 		w.fatalf("harness: message: %v", err)
 	}
-	w.logf("%sappendLog entry=%d names-of=%d", note, i, ref)
-	w.appendRecord(msg, ref, "", opName)
+	li := sp.log % len(w.leaders)
+	lg := w.openLog(li)
+	w.logf("%sappendLog entry=%d names-of=%d -> log of leader %d seq %d", note, i, ref, lg.leader, len(lg.entries))
+	w.appendRecord(li, msg, ref, "", opName)
 }
 
-func (w *world) appendRecord(msg []byte, ref int, kind, opName string) {
-	i := w.appended
-	w.refs = append(w.refs, ref)
-	w.kinds = append(w.kinds, kind)
+func (w *world) appendRecord(li int, msg []byte, ref int, kind, opName string) {
+	lg := w.openLog(li)
+	i := len(w.entries)
+	seq := len(lg.entries)
+	w.entries = append(w.entries, entryT{log: li, seq: seq, ref: ref, kind: kind})
+	lg.entries = append(lg.entries, i)
 	w.begin(opName)
-	err := w.part.WriteLog(msg)
+	var err error
+	if lg.leader == nodeID {
+		err = lg.part.WriteLog(msg)
+	} else {
+		// the leader sends the record with the index it has in the leader's log
+		var idx int64
+		idx, err = lg.part.ReplicaLog(int64(seq), msg)
+		if err == nil && idx != int64(seq) {
+			err = fmt.Errorf("follower log answers index %d for replica index %d", idx, seq)
+		}
+	}
 	w.end()
 	if err != nil {
-		w.fatalf("WriteLog: %v", err)
+		w.fatalf("append to the log of leader %d: %v", lg.leader, err)
 	}
-	w.appended++
-	if got := w.fq.Queue().AppendedSeq(); got != int64(w.appended-1) {
-		w.fatalf("harness: entry %d got sequence %d", i, got)
+	lg.appended++
+	if got := lg.fq.Queue().AppendedSeq(); got != int64(seq) {
+		w.fatalf("harness: entry %d got sequence %d in the log of leader %d, want %d", i, got, lg.leader, seq)
 	}
 }
 
 func (w *world) opAppend() {
-	if w.appended >= maxEntries {
+	if len(w.entries) >= maxEntries {
 		w.t.Skip("log full")
 	}
 	w.appendWrite(drawAppendSpec(w.t), "appendLog", "")
 }
 
 // opAppendSkipped appends a record which carries no write and which the replicator must skip: the
-// storage write rpc (app/storage/rpc/write.go) hands req.Record to Partition.WriteLog as received.
+// storage write rpc (app/storage/rpc/write.go) hands req.Record to Partition.WriteLog as received
+// (and the leader ships the records of its log unchanged to the follower's log).
 //   - garbage:   bytes which are not a snappy stream
 //   - torn:      a proper prefix of the record of a real write
 //   - zero-rows: a snappy stream which decodes to an empty block
 //
 // The record is classified by decoding it here; a record which decodes to a non-empty block is not used.
 func (w *world) opAppendSkipped() {
-	if w.appended >= maxEntries {
+	if len(w.entries) >= maxEntries {
 		w.t.Skip("log full")
 	}
-	i := w.appended
+	i := len(w.entries)
 	var msg []byte
 	shape := rapid.SampledFrom([]string{"garbage", "garbage", "torn", "torn", "zero-rows"}).Draw(w.t, "skippedShape")
 	switch shape {
@@ -286,6 +436,7 @@ func (w *world) opAppendSkipped() {
 			msg = []byte("\xff\x06\x00\x00sNaPpY") // the stream identifier chunk alone
 		}
 	}
+	li := rapid.IntRange(0, 5).Draw(w.t, "log") % len(w.leaders)
 	block, err := compress.NewSnappyReader().Uncompress(msg)
 	kind := "undecodable"
 	switch {
@@ -295,16 +446,23 @@ func (w *world) opAppendSkipped() {
 	default:
 		w.t.Skip("record decodes to a non-empty block")
 	}
-	w.logf("appendLog entry=%d SKIPPED-RECORD %s/%s (%d bytes)", i, shape, kind, len(msg))
-	w.appendRecord(msg, -1, kind, "appendLog")
+	lg := w.openLog(li)
+	w.logf("appendLog entry=%d SKIPPED-RECORD %s/%s (%d bytes) -> log of leader %d seq %d", i, shape, kind, len(msg), lg.leader, len(lg.entries))
+	w.appendRecord(li, msg, -1, kind, "appendLog")
 	w.classes["append-skipped-record-"+kind]++
 }
 
-// replicaCore runs one step of the local replicator. inside = flush sub-step the step runs inside
-// ("" = between operations). It returns false if the step is excluded by the known finding.
-func (w *world) replicaCore(inside string) bool {
-	e := w.applied
-	newNames := !w.bad(e) && w.refs[e] == e
+// replicaCore runs one step of the local replicator of one log. inside = flush sub-step the step runs
+// inside ("" = between operations). It returns false if the step is excluded by the known finding.
+func (w *world) replicaCore(inside string, li int) bool {
+	lg := w.logs[li]
+	seq := lg.applied
+	e := lg.entries[seq]
+	// the entry introduces names if no entry applied before wrote into the series it writes into (with logs
+	// of several leaders the entry which owns the names may be applied after an entry which re-uses them);
+	// the very first write also introduces the names of the sum cell
+	ref := w.entries[e].ref
+	newNames := !w.bad(e) && (!w.namesApplied[ref] || len(w.namesApplied) == 0)
 	// after the freeze of the data flush a new name behaves like one created after the cycle
 	exposed := newNames && (inside == "flushMeta" || inside == "flushIndex" || (inside == "" && w.cycle != 0))
 	if exposed && ev.Known(sigD8) {
@@ -313,22 +471,40 @@ func (w *world) replicaCore(inside string) bool {
 		w.classes["excluded_known"]++
 		return false
 	}
-	r := replica.VerifReplicator(w.part, nodeID)
+	if newNames && len(w.stale) > 0 && ev.Known(sigStale) {
+		// known finding: names created after a failed metadata / index flush and before the next
+		// successful one are not part of what that next flush writes
+		w.classes["excluded_known_stale_freeze"]++
+		return false
+	}
+	if newNames && len(w.stale) > 0 {
+		w.classes["new-names-applied-after-failed-flush-before-the-next-successful-one"]++
+	}
+	r := w.replicator(lg)
 	ackBefore := r.AckIndex()
 	opName := "replicaStep"
 	if inside != "" {
 		opName = "replicaStep@" + inside
-		w.logf("  [inside %s, seam event %d] replicaStep (entry %d)", inside, w.raceSeen-1, e)
+		w.logf("  [inside %s, seam event %d] replicaStep log of leader %d (entry %d, seq %d)", inside, w.raceSeen-1, lg.leader, e, seq)
 	} else {
-		w.logf("replicaStep (entry %d)", e)
+		w.logf("replicaStep log of leader %d (entry %d, seq %d)", lg.leader, e, seq)
 	}
 	w.begin(opName)
-	replica.VerifReplicaStep(w.part, nodeID)
+	replica.VerifReplicaStep(lg.part, nodeID)
 	w.end()
 	if exposed {
-		w.d8Exposed[e] = true
+		w.d8Exposed[ref] = true
 	}
-	w.applied++
+	if !w.bad(e) {
+		w.namesApplied[ref] = true
+	}
+	lg.applied++
+	for lj, other := range w.logs {
+		if lj != li && other != nil && other.applied > 0 {
+			w.classes["replica-step-of-family-with-applied-records-of-another-leader"]++
+			break
+		}
+	}
 	switch {
 	case inside != "":
 		w.classes["replica-step-inside-"+inside]++
@@ -342,8 +518,8 @@ func (w *world) replicaCore(inside string) bool {
 	if w.bad(e) {
 		w.classes["replicator-skips-record"]++
 		unflushed := false
-		for k := int(ackBefore) + 1; k < e; k++ {
-			if !w.bad(k) {
+		for k := int(ackBefore) + 1; k < seq; k++ {
+			if !w.bad(lg.entries[k]) {
 				unflushed = true
 			}
 		}
@@ -359,17 +535,19 @@ func (w *world) replicaCore(inside string) bool {
 }
 
 func (w *world) opReplicaStep() {
-	if w.pending() == 0 {
+	pl := w.pendingLogs()
+	if len(pl) == 0 {
 		w.t.Skip("nothing to replicate")
 	}
-	if !w.replicaCore("") {
+	li := pl[rapid.IntRange(0, 5).Draw(w.t, "stepLog")%len(pl)]
+	if !w.replicaCore("", li) {
 		w.t.Skip("excluded: known finding " + sigD8)
 	}
 }
 
-// opReplicaCatchUp: the replicator (a free running loop in production) handles everything that is pending.
+// opReplicaCatchUp: the replicators (free running loops in production) handle everything that is pending.
 func (w *world) opReplicaCatchUp() {
-	if w.pending() == 0 {
+	if len(w.pendingLogs()) == 0 {
 		w.t.Skip("nothing to replicate")
 	}
 	if w.catchUp() == 0 {
@@ -379,10 +557,24 @@ func (w *world) opReplicaCatchUp() {
 }
 
 func (w *world) catchUp() (steps int) {
-	for w.pending() > 0 && w.replicaCore("") {
-		steps++
+	blocked := map[int]bool{} // logs whose next step is excluded by the known finding
+	for {
+		stepped := false
+		for _, li := range w.pendingLogs() {
+			if blocked[li] {
+				continue
+			}
+			if w.replicaCore("", li) {
+				steps++
+				stepped = true
+			} else {
+				blocked[li] = true
+			}
+		}
+		if !stepped {
+			return steps
+		}
 	}
-	return steps
 }
 
 // drawRacePlan draws what the other actors of the node do inside the next flush sub-step.
@@ -397,6 +589,83 @@ func drawRacePlan(t *rapid.T) []racePoint {
 		plan = append(plan, rp)
 	}
 	return plan
+}
+
+// drawFaultPlan draws the I/O fault of a flush sub-step (nil = none): the at-th operation of one kind
+// fails. The kinds are the operations through which a kv flush creates, writes, closes its table file
+// and writes the manifest record which commits it.
+func drawFaultPlan(t *rapid.T, step string, percent int) *faultPlan {
+	if rapid.IntRange(0, 99).Draw(t, "fault") >= percent {
+		return nil
+	}
+	fp := &faultPlan{step: step, op: rapid.SampledFrom([]string{"tableCreate", "tableCreate", "tableWrite", "tableClose", "manifestWrite"}).Draw(t, "faultOp")}
+	if fp.op == "tableWrite" {
+		fp.at = rapid.IntRange(0, 12).Draw(t, "faultAt")
+	} else {
+		// a sub-step flushes up to four kv families one after the other
+		fp.at = rapid.SampledFrom([]int{0, 0, 0, 1, 1, 2, 3}).Draw(t, "faultAt")
+	}
+	return fp
+}
+
+// stepOfPath tells which flush sub-step an intercepted kv operation belongs to (from the store it works on).
+func (w *world) stepOfPath(path string) string {
+	rel := strings.TrimPrefix(path, filepath.Join(w.dir, "data", w.db))
+	switch {
+	case rel == path:
+		return ""
+	case strings.HasPrefix(rel, "/meta/"):
+		return "flushMeta"
+	case strings.Contains(rel, "/index/"):
+		return "flushIndex"
+	case strings.Contains(rel, "/segment/"):
+		return "flushFamily"
+	}
+	return ""
+}
+
+// enterSubStep: the production flush job moved on to the next store.
+func (w *world) enterSubStep(step string) {
+	w.leaveSubStep()
+	w.subStep, w.race, w.raceSeen = step, w.plans[step], 0
+	w.flushRanges = append(w.flushRanges, [2]int{len(w.im.Points), len(w.im.Points)})
+	w.logf("  (%s)", step)
+	w.begin(step)
+	if len(w.race) > 0 {
+		w.classes["flush-substep-with-race-plan"]++
+	}
+}
+
+// leaveSubStep: a sub-step of the production flush job is over.
+func (w *world) leaveSubStep() {
+	if w.subStep == "" {
+		return
+	}
+	w.flushRanges[len(w.flushRanges)-1][1] = len(w.im.Points)
+	if w.faultFired == "" || w.fault == nil || w.fault.step != w.subStep {
+		delete(w.stale, w.subStep)
+	}
+}
+
+// faultHook is asked once for every table-file / manifest-record operation.
+func (w *world) faultHook(op, _ string) error {
+	fp := w.fault
+	if fp == nil || w.racing || w.faultFired != "" || fp.step != w.subStep || fp.op != op {
+		return nil
+	}
+	n := w.faultSeen
+	w.faultSeen++
+	if n != fp.at {
+		return nil
+	}
+	w.faultFired = op
+	w.logf("  [inside %s] I/O FAULT: %s #%d fails", w.subStep, op, n)
+	w.classes["fault-"+w.subStep+"-"+op]++
+	w.faultWindows = append(w.faultWindows, len(w.im.Points))
+	if w.subStep != "flushFamily" {
+		w.stale[w.subStep] = true
+	}
+	return errInjected
 }
 
 // seam is called at every intercepted file-system operation (after the optional image): inside a
@@ -420,19 +689,23 @@ func (w *world) seam(op string) {
 		}
 		w.racing = true
 		for _, sp := range rp.steps {
-			if w.pending() == 0 {
-				if w.appended >= maxEntries {
+			pl := w.pendingLogs()
+			if len(pl) == 0 {
+				if len(w.entries) >= maxEntries {
 					break
 				}
-				if w.subStep != "flushFamily" && ev.Known(sigD8) {
+				if (w.subStep != "flushFamily" && ev.Known(sigD8)) || (len(w.stale) > 0 && ev.Known(sigStale)) {
 					// while the finding is listed a step which introduces names is not taken inside these
 					// sub-steps (and would block the steps behind it): the entry writes to existing series
 					sp.reuse = true
 				}
 				w.appendWrite(sp, "appendLog@"+w.subStep, fmt.Sprintf("  [inside %s, seam event %d] ", w.subStep, n))
 				w.classes["append-inside-"+w.subStep]++
+				pl = w.pendingLogs()
 			}
-			w.replicaCore(w.subStep)
+			if len(pl) > 0 {
+				w.replicaCore(w.subStep, pl[sp.log%len(pl)])
+			}
 		}
 		w.racing = false
 		w.begin(w.subStep) // the sub-step goes on (new operation index: the number of appended entries moved)
@@ -441,11 +714,15 @@ func (w *world) seam(op string) {
 
 // opFlushStep performs the next sub-step of a flush cycle in production order
 // (database metadata, shard index, data family), other actions may run between the sub-steps
-// and - at the seam events of the plan - inside them.
+// and - at the seam events of the plan - inside them. One operation of the sub-step may fail
+// (I/O fault); the harness then goes on as dataFlushChecker.doFlush / flushShard do: a failed
+// metadata or index flush abandons the cycle (the next request starts with the metadata again),
+// a failed family flush is logged.
 func (w *world) opFlushStep() {
 	var err error
 	name := []string{"flushMeta", "flushIndex", "flushFamily"}[w.cycle]
 	w.race, w.raceSeen = drawRacePlan(w.t), 0
+	w.fault, w.faultSeen, w.faultFired = drawFaultPlan(w.t, name, map[string]int{"flushMeta": 30, "flushIndex": 10, "flushFamily": 8}[name]), 0, ""
 	w.logf("%s", name)
 	from := len(w.im.Points)
 	defer func() { w.flushRanges = append(w.flushRanges, [2]int{from, len(w.im.Points)}) }()
@@ -459,25 +736,78 @@ func (w *world) opFlushStep() {
 		err = w.shard.FlushIndex()
 	case 2:
 		err = w.family.Flush()
-		w.classes["flush-cycle-completed"]++
 	}
 	w.subStep = ""
 	w.end()
 	if len(w.race) > 0 {
 		w.classes["flush-substep-with-race-plan"]++
 	}
-	w.race = nil
+	w.race, w.fault = nil, nil
 	if err != nil {
-		w.fatalf("flush sub-step %d: %v", w.cycle, err)
+		if w.faultFired == "" {
+			w.fatalf("flush sub-step %s: %v", name, err)
+		}
+		w.logf("  %s returns an error (%v): doFlush gives up this cycle", name, err)
+		w.classes["flush-cycle-abandoned-after-failed-"+name]++
+		w.cycle = 0
+		return
+	}
+	if w.faultFired != "" {
+		w.logf("  %s returns no error", name)
+		w.classes["flush-substep-returns-nil-after-fault"]++
+	} else {
+		delete(w.stale, name)
+	}
+	if w.cycle == 2 && w.faultFired == "" {
+		w.classes["flush-cycle-completed"]++
 	}
 	w.cycle = (w.cycle + 1) % 3
 }
 
+// opFlushJob runs one flush job of the production data flush checker for the database (what
+// Engine.FlushDatabase / the periodic check hand to a flush worker): dataFlushChecker.doFlush decides
+// itself how the cycle goes on after each sub-step. Race plans and at most one I/O fault are drawn for
+// its sub-steps; which sub-step is in flight follows from the store the intercepted operations work on.
+func (w *world) opFlushJob() {
+	if w.cycle != 0 {
+		w.t.Skip("a flush job of the database is in flight") // dbInFlushing: one job per database
+	}
+	w.plans = map[string][]racePoint{}
+	for _, s := range []string{"flushMeta", "flushIndex", "flushFamily"} {
+		w.plans[s] = drawRacePlan(w.t)
+	}
+	fstep := rapid.SampledFrom([]string{"flushMeta", "flushMeta", "flushMeta", "flushMeta", "flushIndex", "flushFamily"}).Draw(w.t, "faultStep")
+	w.fault, w.faultSeen, w.faultFired = drawFaultPlan(w.t, fstep, 45), 0, ""
+	w.logf("flushJob (dataFlushChecker.doFlush)")
+	d, _ := w.n.Engine.GetDatabase(w.db)
+	w.begin("flushJob")
+	w.cycleOp = true
+	err := tsdb.VerifFlushDatabaseSync(d)
+	w.cycleOp = false
+	w.leaveSubStep()
+	w.subStep, w.race, w.fault, w.plans = "", nil, nil, nil
+	w.end()
+	if err != nil {
+		w.fatalf("harness: flush job: %v", err)
+	}
+	w.classes["production-flush-job"]++
+	if w.faultFired != "" {
+		w.classes["production-flush-job-with-fault"]++
+	} else {
+		w.classes["flush-cycle-completed"]++
+	}
+}
+
 func (w *world) opLogGC() {
-	w.logf("logGC")
+	ll := w.liveLogs()
+	if len(ll) == 0 {
+		w.t.Skip("no log yet")
+	}
+	lg := w.logs[ll[rapid.IntRange(0, 5).Draw(w.t, "gcLog")%len(ll)]]
+	w.logf("logGC log of leader %d", lg.leader)
 	w.begin("logGC")
-	w.fq.Sync()
-	w.fq.Queue().GC()
+	lg.fq.Sync()
+	lg.fq.Queue().GC()
 	w.end()
 }
 
@@ -493,27 +823,58 @@ func digits(sum float64) []int {
 	return out
 }
 
+// logImage is what one log looks like in a crash image.
+type logImage struct {
+	lg             *logSt
+	present        bool  // the log directory exists in the image
+	removed        bool  // the removal task had removed the partition
+	appendedBefore int   // records whose append had returned when the crash hit
+	logApp         int64 // last sequence in the recovered log
+	groupAck       int64 // acknowledged position of the local replicator's consumer group
+	persisted      int64 // sequence stored for the leader with the flushed data
+	visible        int   // records of the log which the recovered node must show
+}
+
 func (w *world) recoverImage(p crash.Point) {
-	appendedBefore := w.appendedAt[p.OpIdx] // entries whose append had returned when the crash hit
-	// 1. what the log says on disk
+	// 1. what the logs say on disk
 	cfgWal := config.NewDefaultStorageBase().WAL
 	cfgWal.Dir = filepath.Join(p.Dir, "wal")
-	fq, err := queue.NewFanOutQueue(walDir(cfgWal, w.db), 0)
-	if err != nil {
-		w.fatalf("image %s: log cannot be reopened: %v", p, err)
-	}
-	logApp := fq.Queue().AppendedSeq()
-	groupAck := int64(-1)
-	for _, name := range fq.ConsumerGroupNames() {
-		if name == strconv.Itoa(int(nodeID)) {
-			cg, _ := fq.GetOrCreateConsumerGroup(name)
-			groupAck = cg.AcknowledgedSeq()
+	var imgs []*logImage
+	for li, lg := range w.logs {
+		if lg == nil {
+			continue
 		}
+		li0 := &logImage{lg: lg, appendedBefore: w.appendedAt[p.OpIdx][li], logApp: -1, groupAck: -1, persisted: -1}
+		li0.removed = lg.removedSeq >= 0 && p.Seq >= lg.removedSeq
+		dir := walDir(cfgWal, w.db, lg.leader)
+		if st, err := os.Stat(dir); err == nil && st.IsDir() {
+			li0.present = true
+			fq, err := queue.NewFanOutQueue(dir, 0)
+			if err != nil {
+				w.fatalf("image %s: log of leader %d cannot be reopened: %v", p, lg.leader, err)
+			}
+			li0.logApp = fq.Queue().AppendedSeq()
+			for _, name := range fq.ConsumerGroupNames() {
+				if name == strconv.Itoa(int(nodeID)) {
+					cg, _ := fq.GetOrCreateConsumerGroup(name)
+					li0.groupAck = cg.AcknowledgedSeq()
+				}
+			}
+			fq.Close()
+		}
+		if li0.removed && li0.present {
+			w.fatalf("harness: image %s holds the removed log of leader %d", p, lg.leader)
+		}
+		if li0.logApp < int64(li0.appendedBefore)-1 && !li0.removed {
+			w.fatalf("image %s: %d records had been appended to the log of leader %d, the recovered log ends at sequence %d", p, li0.appendedBefore, lg.leader, li0.logApp)
+		}
+		imgs = append(imgs, li0)
 	}
-	fq.Close()
-	logRemoved := p.FSOp == "logRemoved"
-	if logApp < int64(appendedBefore)-1 && !logRemoved {
-		w.fatalf("image %s: %d entries had been appended, the recovered log ends at sequence %d", p, appendedBefore, logApp)
+	anyAppended := false
+	for _, im := range imgs {
+		if im.appendedBefore > 0 {
+			anyAppended = true
+		}
 	}
 	// 2. engine
 	n, err := node.Start(p.Dir)
@@ -533,7 +894,7 @@ func (w *world) recoverImage(p crash.Point) {
 	shard, err := n.Shard(w.db, 0)
 	if err != nil {
 		// the database/shard creation itself may be the operation in flight
-		if appendedBefore == 0 {
+		if !anyAppended {
 			return
 		}
 		w.fatalf("image %s: %v", p, err)
@@ -542,54 +903,118 @@ func (w *world) recoverImage(p crash.Point) {
 	if err != nil {
 		w.fatalf("image %s: data family: %v", p, err)
 	}
-	persisted := int64(-1)
 	snap := family.Family().GetSnapshot()
-	if s, ok := snap.GetCurrent().GetSequences()[int32(nodeID)]; ok {
-		persisted = s
+	stored := snap.GetCurrent().GetSequences()
+	for _, im := range imgs {
+		if s, ok := stored[int32(im.lg.leader)]; ok {
+			im.persisted = s
+		}
 	}
 	snap.Close()
+	describe := func() string {
+		var sb strings.Builder
+		for _, im := range imgs {
+			fmt.Fprintf(&sb, " [leader %d: log ends at %d, ack %d, stored sequence %d]", im.lg.leader, im.logApp, im.groupAck, im.persisted)
+		}
+		return sb.String()
+	}
 	// the acknowledgement may pass the stored sequence only over records which carry no write (the
 	// replicator skips them and acknowledges a skipped record which directly follows the acknowledged position)
-	for k := persisted + 1; k <= groupAck; k++ {
-		if !w.bad(int(k)) {
-			w.fatalf("image %s: the log's acknowledged position %d runs ahead of the sequence %d stored with the flushed data (entry %d is a write which is in no flushed data)", p, groupAck, persisted, k)
-		}
-	}
-	if os.Getenv("C07_DEBUG") != "" {
-		c0 := node.NewCluster()
-		c0.AddLeaf("leaf:1", n.Engine, "")
-		c0.SetLayout(w.db, node.DBOption(timeutil.Interval(10_000)), map[string][]models.ShardID{"leaf:1": {0}})
-		for i := 0; i <= int(persisted); i++ {
-			if w.bad(i) {
-				continue
+	ackCheck := func(when string, im *logImage, ack int64) {
+		for k := im.persisted + 1; k <= ack; k++ {
+			if k >= int64(len(im.lg.entries)) || !w.bad(im.lg.entries[k]) {
+				w.fatalf("image %s%s: the acknowledged position %d of the log of leader %d runs ahead of the sequence %d stored for that leader with the flushed data (record %d is a write which is in no flushed data);%s", p, when, ack, im.lg.leader, im.persisted, k, describe())
 			}
-			q := fmt.Sprintf("select f%d from m%d where host='h%d' and time>='2023-05-01 10:00:00' and time<='2023-05-01 10:59:59'", w.refs[i]%2, w.refs[i]%3, w.refs[i])
-			rs0, err0 := c0.Query(w.db, q)
-			fmt.Printf("C07DEBUG before replay image=%s entry %d: %v err=%v\n", p, i, node.Canon(rs0), err0)
 		}
-		c0.Close()
 	}
-	// 3. production WAL recovery, free running replication drains the log
+	for _, im := range imgs {
+		ackCheck("", im, im.groupAck)
+	}
+	// 3. production WAL recovery, free running replication drains the logs.
+	// With logs of several leaders the loops of the logs write into the family concurrently (one goroutine
+	// per log). For half of these images (drawn; always while the finding sigConc is listed) the loops are
+	// not started (NewPartitionFn, the constructor seam of the write-ahead log) and the harness runs their
+	// steps one at a time in a drawn interleaving; the other half is replayed by the production loops.
+	present := 0
+	for _, im := range imgs {
+		if im.present {
+			present++
+		}
+	}
+	var held []replica.Partition
+	stepped := present >= 2 && (ev.Known(sigConc) || rapid.Bool().Draw(w.t, "replayByDrawnInterleaving"))
+	if stepped {
+		replica.NewPartitionFn = func(ctx context.Context, shard tsdb.Shard, family tsdb.DataFamily, currentNodeID models.NodeID,
+			log queue.FanOutQueue, cliFct rpc.ClientStreamFactory, stateMgr storage.StateManager,
+		) replica.Partition {
+			part := replica.NewPartition(ctx, shard, family, currentNodeID, log, cliFct, stateMgr)
+			held = append(held, part)
+			return &heldPartition{Partition: part}
+		}
+		defer func() { replica.NewPartitionFn = replica.NewPartition }()
+	}
 	cfg := config.GlobalStorageConfig()
 	walMgr = replica.NewWriteAheadLogManager(context.Background(), cfg.WAL, nodeID, n.Engine, nil, nil)
 	if err := walMgr.Recovery(); err != nil {
 		w.fatalf("image %s: WAL recovery: %v", p, err)
 	}
+	// what the node reports about its logs after the recovery (WriteAheadLogManager.GetReplicaState, the
+	// state api of the storage node): the recovery registers the local replicator of every log with the
+	// family, which acknowledges the log up to the sequence stored for ITS leader - never beyond
+	// (replay may since have skipped records without a write, nothing else moves an acknowledgement here)
+	states := map[models.NodeID]models.FamilyLogReplicaState{}
+	for _, st := range walMgr.GetReplicaState(w.db) {
+		states[st.Leader] = st
+	}
+	for _, im := range imgs {
+		if !im.present {
+			continue
+		}
+		st, ok := states[im.lg.leader]
+		if !ok {
+			w.fatalf("image %s: the log directory of leader %d exists, the recovered node reports no log for that leader (reported: %v)", p, im.lg.leader, states)
+		}
+		for _, peer := range st.Replicators {
+			if peer.Replicator == strconv.Itoa(int(nodeID)) {
+				ackCheck(" after WAL recovery", im, peer.ACK)
+			}
+		}
+	}
+	if stepped {
+		order := rapid.SliceOfN(rapid.IntRange(0, 5), 6, 6).Draw(w.t, "replayInterleaving")
+		for k := 0; ; k++ {
+			var pending []replica.Partition
+			for _, part := range held {
+				if r := replica.VerifReplicator(part, nodeID); r != nil && r.Pending() > 0 {
+					pending = append(pending, part)
+				}
+			}
+			if len(pending) == 0 {
+				break
+			}
+			if k > 4*maxEntries {
+				w.fatalf("image %s: replay does not finish;%s", p, describe())
+			}
+			replica.VerifReplicaStep(pending[order[k%len(order)]%len(pending)], nodeID)
+		}
+	}
 	deadline := time.Now().Add(10 * time.Second)
-	for {
-		st := family.GetState()
-		if logApp < 0 || logApp <= groupAck {
-			// empty log, or everything acknowledged (the replicator starts behind the acknowledged
-			// position; a skipped record next to that position is acknowledged without a family sequence)
-			break
+	for _, im := range imgs {
+		for im.present && !stepped {
+			st := family.GetState()
+			if im.logApp < 0 || im.logApp <= im.groupAck {
+				// empty log, or everything acknowledged (the replicator starts behind the acknowledged
+				// position; a skipped record next to that position is acknowledged without a family sequence)
+				break
+			}
+			if seq, ok := st.ReplicaSequences[int32(im.lg.leader)]; ok && seq >= im.logApp {
+				break
+			}
+			if time.Now().After(deadline) {
+				w.fatalf("image %s: replay of the log of leader %d does not finish: family sequences %v;%s", p, im.lg.leader, st.ReplicaSequences, describe())
+			}
+			time.Sleep(time.Millisecond)
 		}
-		if seq, ok := st.ReplicaSequences[int32(nodeID)]; ok && seq >= logApp {
-			break
-		}
-		if time.Now().After(deadline) {
-			w.fatalf("image %s: replay does not finish: family sequence %v, log appended %d (persisted %d, log ack %d)", p, st.ReplicaSequences, logApp, persisted, groupAck)
-		}
-		time.Sleep(time.Millisecond)
 	}
 	// 4. read the node through the production query path
 	c := node.NewCluster()
@@ -597,81 +1022,101 @@ func (w *world) recoverImage(p crash.Point) {
 	c.AddLeaf("leaf:1", n.Engine, "")
 	c.SetLayout(w.db, node.DBOption(timeutil.Interval(10_000)), map[string][]models.ShardID{"leaf:1": {0}})
 	tr := "time>='2023-05-01 10:00:00' and time<='2023-05-01 10:59:59'"
-	visible := int(logApp) + 1 // entries in the recovered log (a crash inside an append may or may not show it)
-	if logRemoved {
-		// the log partition was removed by the removal task: every appended entry must be in flushed data
-		visible = appendedBefore
-		for k := int(persisted) + 1; k < appendedBefore; k++ {
-			if !w.bad(k) {
-				w.fatalf("image %s: the log partition was removed although entries above the stored sequence %d exist (%d appended, entry %d is a write): they are in no flushed data and cannot be replayed", p, persisted, appendedBefore, k)
+	anyRemoved := false
+	for _, im := range imgs {
+		im.visible = int(im.logApp) + 1 // records in the recovered log (a crash inside an append may or may not show it)
+		if im.removed {
+			// the log partition was removed by the removal task: every appended record must be in flushed data
+			anyRemoved = true
+			im.visible = im.appendedBefore
+			for k := int(im.persisted) + 1; k < im.appendedBefore; k++ {
+				if !w.bad(im.lg.entries[k]) {
+					w.fatalf("image %s: the log partition of leader %d was removed although records above the stored sequence %d exist (%d appended, record %d is a write): they are in no flushed data and cannot be replayed", p, im.lg.leader, im.persisted, im.appendedBefore, k)
+				}
 			}
 		}
+		if im.visible > len(im.lg.entries) {
+			w.fatalf("harness: image %s: log of leader %d shows %d records, %d were appended", p, im.lg.leader, im.visible, len(im.lg.entries))
+		}
 	}
-	writes := 0
-	for i := 0; i < visible; i++ {
-		if !w.bad(i) {
-			writes++
+	imageOf := map[int]*logImage{}
+	for _, im := range imgs {
+		for k, e := range im.lg.entries {
+			_ = k
+			imageOf[e] = im
+		}
+	}
+	isVisible := func(i int) bool {
+		im := imageOf[i]
+		return im != nil && w.entries[i].seq < im.visible
+	}
+	writes, visible := 0, 0
+	for i := range w.entries {
+		if isVisible(i) {
+			visible++
+			if !w.bad(i) {
+				writes++
+			}
 		}
 	}
 	if writes == 0 && visible > 0 {
 		// only skipped records: the metric does not exist, nothing may have been written
 		if rs, err := c.Query(w.db, "select s from acc where "+tr); err == nil {
 			if res := node.Canon(rs); len(res) != 0 {
-				w.fatalf("image %s: the log holds only records without a write, query acc returns %v", p, res)
+				w.fatalf("image %s: the logs hold only records without a write, query acc returns %v", p, res)
 			}
 		}
 	}
 	if writes > 0 {
 		rs, err := c.Query(w.db, "select s from acc where "+tr)
 		if err != nil {
-			w.fatalf("image %s: query acc: %v (persisted %d, log appended %d)", p, err, persisted, logApp)
+			w.fatalf("image %s: query acc: %v;%s", p, err, describe())
 		}
 		res := node.Canon(rs)
 		sum := res[""]["s"][baseTime]
 		d := digits(sum)
-		for i := 0; i < visible; i++ {
+		for i := range w.entries {
+			im := imageOf[i]
+			e := w.entries[i]
+			if !isVisible(i) {
+				if d[i] != 0 && !im.removed {
+					w.fatalf("image %s: data of log entry %d (leader %d, sequence %d) is present although that log ends at %d", p, i, im.lg.leader, e.seq, im.logApp)
+				}
+				continue
+			}
 			if w.bad(i) {
 				if d[i] != 0 {
-					w.fatalf("image %s: log entry %d carries no write (%s record) but the sum cell shows %d applications of it", p, i, w.kinds[i], d[i])
+					w.fatalf("image %s: log entry %d carries no write (%s record) but the sum cell shows %d applications of it", p, i, e.kind, d[i])
 				}
 				continue
 			}
 			if d[i] == 0 {
-				w.fatalf("image %s: log entry %d was appended before the crash but is in no flushed data and was not replayed (persisted sequence %d, log ack %d, sum %v)", p, i, persisted, groupAck, sum)
+				w.fatalf("image %s: log entry %d (log of leader %d, sequence %d) was appended before the crash but is in no flushed data and was not replayed (sum %v);%s", p, i, im.lg.leader, e.seq, sum, describe())
 			}
-			if int64(i) <= persisted && d[i] != 1 {
-				w.fatalf("image %s: log entry %d (at or below the stored sequence %d) was applied %d times", p, i, persisted, d[i])
+			if int64(e.seq) <= im.persisted && d[i] != 1 {
+				w.fatalf("image %s: log entry %d (log of leader %d, sequence %d: at or below the stored sequence %d) was applied %d times", p, i, im.lg.leader, e.seq, im.persisted, d[i])
 			}
 		}
-		for i := visible; i < len(d) && !logRemoved; i++ {
+		for i := len(w.entries); i < len(d) && !anyRemoved; i++ {
 			if d[i] != 0 {
-				w.fatalf("image %s: data of log entry %d is present although the log ends at %d", p, i, logApp)
+				w.fatalf("image %s: the sum cell shows data of an entry %d which was never appended", p, i)
 			}
-		}
-	}
-	if os.Getenv("C07_DEBUG") != "" {
-		for i := 0; i < visible; i++ {
-			if w.bad(i) {
-				continue
-			}
-			q := fmt.Sprintf("select f%d from m%d where host='h%d' and %s", w.refs[i]%2, w.refs[i]%3, w.refs[i], tr)
-			rs0, err0 := c.Query(w.db, q)
-			fmt.Printf("C07DEBUG after replay image=%s persisted=%d entry %d: %v err=%v\n", p, persisted, i, node.Canon(rs0), err0)
 		}
 	}
 	// flushed data resolves through the recovered metadata: query by name and tags
-	for i := 0; i < visible; i++ {
-		if w.bad(i) {
+	for i := range w.entries {
+		if !isVisible(i) || w.bad(i) {
 			continue
 		}
-		j := w.refs[i]
-		if (w.d8Exposed[i] || w.d8Exposed[j]) && ev.Known(sigD8) {
+		im := imageOf[i]
+		j := w.entries[i].ref
+		if w.d8Exposed[j] && ev.Known(sigD8) {
 			continue
 		}
 		q := fmt.Sprintf("select f%d from m%d where host='h%d' and %s group by host,t%d", j%2, j%3, j, tr, j%4)
 		rs, err := c.Query(w.db, q)
 		if err != nil {
-			w.fatalf("image %s: entry %d (persisted sequence %d): query %q fails: %v", p, i, persisted, q, err)
+			w.fatalf("image %s: entry %d (log of leader %d, sequence %d): query %q fails: %v;%s", p, i, im.lg.leader, w.entries[i].seq, q, err, describe())
 		}
 		res := node.Canon(rs)
 		key := fmt.Sprintf("host=h%d,t%d=x", j, j%4)
@@ -687,25 +1132,65 @@ func (w *world) recoverImage(p crash.Point) {
 				dbg += fmt.Sprintf("\n   debug %q -> %v err=%v", q2, node.Canon(rs2), err2)
 			}
 			w.logf("debug:%s", dbg)
-			w.fatalf("image %s: entry %d (persisted sequence %d, log ack %d): query %q returns %v, want %s -> %v", p, i, persisted, groupAck, q, res, key, i+1)
+			w.fatalf("image %s: entry %d (log of leader %d, sequence %d): query %q returns %v, want %s -> %v;%s", p, i, im.lg.leader, w.entries[i].seq, q, res, key, i+1, describe())
 		}
 	}
-	nt := persisted >= 0 && persisted < logApp
+	nt := false
 	classes := []string{"img-" + p.OpName, "fsop-" + p.FSOp}
+	logsPresent, logsUnflushed := 0, 0
+	for _, im := range imgs {
+		if im.persisted >= 0 && im.persisted < im.logApp {
+			nt = true
+		}
+		if im.present {
+			logsPresent++
+			if im.logApp > im.persisted && im.logApp > im.groupAck {
+				logsUnflushed++
+			}
+		}
+		if im.groupAck > im.persisted {
+			classes = append(classes, "ack-above-stored-sequence-over-skipped-records-only")
+		}
+		for k := int(im.persisted) + 1; k < im.visible; k++ {
+			if w.bad(im.lg.entries[k]) {
+				classes = append(classes, "skipped-record-above-stored-sequence")
+				break
+			}
+		}
+		// the shape in which a mix-up of the leaders of two logs of one family loses entries: the stored
+		// sequence of ANOTHER leader lies above this log's acknowledged position while records wait for replay
+		for _, other := range imgs {
+			if other != im && im.present && im.logApp > im.groupAck && other.persisted > im.groupAck {
+				classes = append(classes, "log-to-replay-with-stored-sequence-of-another-leader-above-its-ack")
+				break
+			}
+		}
+	}
 	if nt {
 		classes = append(classes, "entries-above-and-below-persisted-sequence")
 	}
-	if groupAck > persisted {
-		classes = append(classes, "ack-above-stored-sequence-over-skipped-records-only")
+	classes = append(classes, fmt.Sprintf("image-with-%d-logs", logsPresent))
+	if stepped {
+		classes = append(classes, "replay-of-several-logs-stepped-in-drawn-interleaving")
+	} else if logsPresent >= 2 {
+		classes = append(classes, "replay-of-several-logs-free-running")
 	}
-	for k := int(persisted) + 1; k < visible; k++ {
-		if w.bad(k) {
-			classes = append(classes, "skipped-record-above-stored-sequence")
-			break
-		}
+	if logsPresent >= 2 && logsUnflushed >= 1 {
+		classes = append(classes, "image-with-logs-of-several-leaders-and-records-to-replay")
 	}
 	classes = append(classes, w.imageTags[p.Seq]...)
-	ev.Case("crash-points", strings.Join(w.ops, ";")+"|"+p.String(), nt, classes, nil)
+	ev.Case("crash-points", strings.Join(w.ops, ";")+"|"+p.String(), nt, uniq(classes), nil)
+}
+
+func uniq(in []string) (out []string) {
+	seen := map[string]bool{}
+	for _, s := range in {
+		if !seen[s] {
+			seen[s] = true
+			out = append(out, s)
+		}
+	}
+	return out
 }
 
 func runHistory(t *rapid.T, thorough bool) {
@@ -713,19 +1198,27 @@ func runHistory(t *rapid.T, thorough bool) {
 	if err != nil {
 		t.Fatalf("harness: %v", err)
 	}
-	w := &world{t: t, dir: filepath.Join(dir, "node"), db: fmt.Sprintf("c07db%d", dbSeq.Add(1)), classes: map[string]int{}, d8Exposed: map[int]bool{}, thorough: thorough, imageTags: map[int][]string{}}
+	w := &world{t: t, dir: filepath.Join(dir, "node"), db: fmt.Sprintf("c07db%d", dbSeq.Add(1)), classes: map[string]int{}, d8Exposed: map[int]bool{}, namesApplied: map[int]bool{}, stale: map[string]bool{}, thorough: thorough, imageTags: map[int][]string{}}
 	w.im = &crash.Imager{Root: w.dir, OutDir: filepath.Join(dir, "img")}
+	w.leaders = rapid.SampledFrom(leaderSets).Draw(t, "leadersOfTheFamilyLogs")
+	w.logs = make([]*logSt, len(w.leaders))
 	// a crash inside the stream of logical writes of one table file leaves a file no manifest names:
 	// one in four of these points is imaged (which ones is drawn), every other point always
 	salt := rapid.IntRange(0, 3).Draw(t, "tableWriteImages")
 	w.im.Want = func(p crash.Point) bool { return p.FSOp != "tableWrite" || (p.Seq+salt)%4 == 0 }
 	hook := func(op, path string, before bool) {
+		if w.cycleOp && !w.racing {
+			// the production flush job moves from store to store by itself
+			if s := w.stepOfPath(path); s != "" && s != w.subStep {
+				w.enterSubStep(s)
+			}
+		}
 		w.im.Hook(op, path, before)
 		w.seam(op)
 	}
 	kv.VerifSetFSHook(hook)
-	version.VerifSetFSHook(hook)
-	table.VerifSetFSHook(hook)
+	version.VerifSetFSHookWithFaults(hook, w.faultHook)
+	table.VerifSetFSHookWithFaults(hook, w.faultHook)
 	qsim.Install(hook)
 	cleanupHooks := func() {
 		kv.VerifSetFSHook(nil)
@@ -740,14 +1233,19 @@ func runHistory(t *rapid.T, thorough bool) {
 		}
 		liveClosed = true
 		w.im.Active = false
+		w.fault = nil
 		// production shutdown order (databaseLifecycle.Shutdown): stop replication, close the engine
 		// (its final flush acknowledges into the log), then close the log
-		if w.part != nil {
-			w.part.Stop()
+		anyRemoved := false
+		for _, lg := range w.logs {
+			if lg != nil {
+				lg.part.Stop()
+				anyRemoved = anyRemoved || lg.removedSeq >= 0
+			}
 		}
 		if w.n != nil {
 			func() {
-				if w.logRemoved {
+				if anyRemoved {
 					// the final flush of the engine acknowledges into the (closed) log of the removed partition
 					debug.SetPanicOnFault(true)
 					defer func() { _ = recover() }()
@@ -755,8 +1253,10 @@ func runHistory(t *rapid.T, thorough bool) {
 				w.n.Close()
 			}()
 		}
-		if w.part != nil {
-			_ = w.part.Close()
+		for _, lg := range w.logs {
+			if lg != nil {
+				_ = lg.part.Close()
+			}
 		}
 	}
 	defer func() {
@@ -782,15 +1282,6 @@ func runHistory(t *rapid.T, thorough bool) {
 	if err != nil {
 		t.Fatalf("harness: family: %v", err)
 	}
-	w.walPath = walDir(config.GlobalStorageConfig().WAL, w.db)
-	w.fq, err = queue.NewFanOutQueue(w.walPath, 0)
-	if err != nil {
-		t.Fatalf("harness: wal: %v", err)
-	}
-	w.part = replica.NewPartition(context.Background(), w.shard, w.family, nodeID, w.fq, nil, nil)
-	if err := w.part.BuildReplicaForLeader(nodeID, []models.NodeID{nodeID}); err != nil {
-		t.Fatalf("harness: build replica: %v", err)
-	}
 
 	t.Repeat(map[string]func(*rapid.T){
 		"appendLog":      func(t *rapid.T) { w.t = t; w.opAppend() },
@@ -800,10 +1291,12 @@ func runHistory(t *rapid.T, thorough bool) {
 		"replicaCatchUp": func(t *rapid.T) { w.t = t; w.opReplicaCatchUp() },
 		"flushStep":      func(t *rapid.T) { w.t = t; w.opFlushStep() },
 		"flushStep2":     func(t *rapid.T) { w.t = t; w.opFlushStep() },
+		"flushJob":       func(t *rapid.T) { w.t = t; w.opFlushJob() },
 		"appendSkipped":  func(t *rapid.T) { w.t = t; w.opAppendSkipped() },
 		"logGC":          func(t *rapid.T) { w.t = t; w.opLogGC() },
 	})
 	w.t = t
+	w.fault = nil
 
 	// the periodic log-removal task (WriteAheadLogManager garbage collection): Partition.IsExpire()
 	// syncs + collects the log and says whether the partition of this (long past) family may be
@@ -812,32 +1305,45 @@ func runHistory(t *rapid.T, thorough bool) {
 	removal := rapid.SampledFrom([]string{"none", "task", "caught-up+task", "caught-up+task"}).Draw(t, "logRemovalTask")
 	if removal == "caught-up+task" {
 		w.catchUp()
-		if w.pending() == 0 {
+		if len(w.pendingLogs()) == 0 {
 			w.classes["removal-task-sees-caught-up-replicator"]++
 		}
 	}
-	if removal != "none" {
+	anyRemoved := false
+	if removal != "none" && len(w.liveLogs()) > 0 {
 		w.logf("logRemovalTask")
 		w.begin("logRemovalTask")
-		if w.part.IsExpire() {
-			w.part.Stop()
-			_ = w.part.Close()
-			_ = os.RemoveAll(w.walPath)
-			w.logRemoved = true
-			w.logf("  (partition expired: log directory removed)")
-			w.im.Hook("logRemoved", w.walPath, false)
-			w.classes["log-partition-removed"]++
+		for _, li := range w.liveLogs() {
+			lg := w.logs[li]
+			if lg.part.IsExpire() {
+				lg.part.Stop()
+				_ = lg.part.Close()
+				_ = os.RemoveAll(lg.path)
+				w.logf("  (partition of leader %d expired: log directory removed)", lg.leader)
+				at := len(w.im.Points)
+				w.im.Hook("logRemoved", lg.path, false)
+				lg.removedSeq = w.im.Points[at].Seq
+				anyRemoved = true
+				w.classes["log-partition-removed"]++
+			}
 		}
 		w.end()
 	}
 
 	// the node dies after the last operation: one image of the idle node
-	// (after the removal of the log the image taken there is that image)
-	if !w.logRemoved {
+	// (after the removal of a log the image taken there is that image)
+	if !anyRemoved {
 		w.begin("endOfHistory")
 		w.im.Hook("endOfHistory", w.dir, false)
 		w.end()
 	}
+	opened := 0
+	for _, lg := range w.logs {
+		if lg != nil {
+			opened++
+		}
+	}
+	w.classes[fmt.Sprintf("history-with-logs-of-%d-leaders", opened)]++
 
 	// ---- the crash: the live node is not used any more; sampled images are recovered
 	pts := w.im.Points
@@ -864,7 +1370,7 @@ func runHistory(t *rapid.T, thorough bool) {
 			chosen[i] = true
 		}
 	} else {
-		// the idle node at the end and the removed log
+		// the idle node at the end and the removed logs
 		for _, i := range withDir {
 			if pts[i].FSOp == "logRemoved" || pts[i].FSOp == "endOfHistory" {
 				chosen[i] = true
@@ -906,6 +1412,36 @@ func runHistory(t *rapid.T, thorough bool) {
 		}
 		pickWindows(w.raceWindows, true, "window-after-data-flush-with-replication-inside")
 		pickWindows(w.skipWindows, false, "window-after-skipped-record-above-unflushed-writes")
+		// fault windows: from the failed operation of a flush sub-step to the start of the next metadata
+		// flush (which repairs whatever the failed cycle left behind): the last image with a copy and a drawn one
+		faultWindow := func(start int) {
+			if start >= len(pts) {
+				return
+			}
+			end := start + 1
+			for end < len(pts) && !(pts[end].OpName == "flushMeta" && pts[end-1].OpName != "flushMeta") {
+				end++
+			}
+			var cands []int
+			for i := start; i < end; i++ {
+				if pts[i].Dir != "" {
+					cands = append(cands, i)
+				}
+			}
+			if len(cands) == 0 {
+				return
+			}
+			for _, i := range []int{cands[len(cands)-1], cands[rapid.IntRange(0, len(cands)-1).Draw(t, "faultWindowImage")]} {
+				chosen[i] = true
+				tag(i, "window-after-failed-flush-sub-step-before-the-next-metadata-flush")
+			}
+		}
+		if n := len(w.faultWindows); n > 0 {
+			faultWindow(w.faultWindows[n-1])
+			if n > 1 {
+				faultWindow(w.faultWindows[rapid.IntRange(0, n-2).Draw(t, "faultWindow")])
+			}
+		}
 		// prefer the commit boundaries inside flush sub-steps (between two manifest commits of the
 		// several kv families one sub-step flushes) and the points of replication steps / log GC
 		var hot, boundary []int
@@ -964,8 +1500,8 @@ func runHistory(t *rapid.T, thorough bool) {
 	for c, n := range w.classes {
 		ev.Class("TestNodeCrashRecovery", c, n)
 	}
-	ev.Case("TestNodeCrashRecovery", strings.Join(w.ops, ";"), len(order) > 0 && w.classes["flush-cycle-completed"] > 0, nil,
-		map[string]any{"history": w.ops, "images_taken": len(withDir), "images_recovered": len(order)})
+	ev.Case("TestNodeCrashRecovery", fmt.Sprint(w.leaders)+strings.Join(w.ops, ";"), len(order) > 0 && w.classes["flush-cycle-completed"] > 0, nil,
+		map[string]any{"leaders": fmt.Sprint(w.leaders), "history": w.ops, "images_taken": len(withDir), "images_recovered": len(order)})
 }
 
 func TestNodeCrashRecovery(t *testing.T) {
@@ -991,7 +1527,7 @@ func TestKnown_NameCreatedInsideFlushCycle(t *testing.T) {
 			t.Fatalf("harness: %v", err)
 		}
 		defer os.RemoveAll(dir)
-		w := &world{t: t, dir: filepath.Join(dir, "node"), db: fmt.Sprintf("c07db%d", dbSeq.Add(1)), classes: map[string]int{}, d8Exposed: map[int]bool{}}
+		w := &world{t: t, dir: filepath.Join(dir, "node"), db: fmt.Sprintf("c07db%d", dbSeq.Add(1)), classes: map[string]int{}, d8Exposed: map[int]bool{}, namesApplied: map[int]bool{}, stale: map[string]bool{}}
 		w.im = &crash.Imager{Root: w.dir, OutDir: filepath.Join(dir, "img")}
 		w.n, err = node.Start(w.dir)
 		if err != nil {
@@ -1002,21 +1538,14 @@ func TestKnown_NameCreatedInsideFlushCycle(t *testing.T) {
 		}
 		w.shard, _ = w.n.Shard(w.db, 0)
 		w.family, _ = w.shard.GetOrCrateDataFamily(baseTime)
-		w.fq, err = queue.NewFanOutQueue(walDir(config.GlobalStorageConfig().WAL, w.db), 0)
-		if err != nil {
-			t.Fatalf("harness: %v", err)
-		}
-		w.part = replica.NewPartition(context.Background(), w.shard, w.family, nodeID, w.fq, nil, nil)
-		_ = w.part.BuildReplicaForLeader(nodeID, []models.NodeID{nodeID})
+		w.leaders, w.logs = []models.NodeID{nodeID}, make([]*logSt, 1)
+		lg := w.openLog(0)
 		put := func(i int) {
 			msg, _ := message(i, i)
-			if err := w.part.WriteLog(msg); err != nil {
+			if err := lg.part.WriteLog(msg); err != nil {
 				t.Fatalf("harness: %v", err)
 			}
-			w.refs = append(w.refs, i)
-			w.appended++
-			replica.VerifReplicaStep(w.part, nodeID)
-			w.applied++
+			replica.VerifReplicaStep(lg.part, nodeID)
 		}
 		put(0)
 		d, _ := w.n.Engine.GetDatabase(w.db)
@@ -1034,9 +1563,9 @@ func TestKnown_NameCreatedInsideFlushCycle(t *testing.T) {
 		if err := crash.CopyTree(w.dir, img); err != nil {
 			t.Fatalf("harness: %v", err)
 		}
-		w.part.Stop()
+		lg.part.Stop()
 		w.n.Close()
-		_ = w.part.Close()
+		_ = lg.part.Close()
 		// recover the image
 		n, err := node.Start(img)
 		if err != nil {
@@ -1067,4 +1596,233 @@ func TestKnown_NameCreatedInsideFlushCycle(t *testing.T) {
 		}
 		t.Fatalf("%s: %s", sigD8, what)
 	})
+}
+
+// ---- plain reproductions of the findings of wave 5 ---------------------------------------------------
+
+// plainNode is a node with one database, one data family and the logs of the given leaders, without
+// images, hooks or rapid.
+type plainNode struct {
+	t      *testing.T
+	dir    string
+	db     string
+	n      *node.Node
+	shard  tsdb.Shard
+	family tsdb.DataFamily
+	parts  map[models.NodeID]replica.Partition
+}
+
+func startPlainNode(t *testing.T, dir string, leaders ...models.NodeID) *plainNode {
+	t.Helper()
+	p := &plainNode{t: t, dir: dir, db: fmt.Sprintf("c07db%d", dbSeq.Add(1)), parts: map[models.NodeID]replica.Partition{}}
+	var err error
+	if p.n, err = node.Start(dir); err != nil {
+		t.Fatalf("harness: %v", err)
+	}
+	if err := p.n.CreateDB(p.db, node.DBOption(timeutil.Interval(10_000)), 0); err != nil {
+		t.Fatalf("harness: %v", err)
+	}
+	p.shard, _ = p.n.Shard(p.db, 0)
+	if p.family, err = p.shard.GetOrCrateDataFamily(baseTime); err != nil {
+		t.Fatalf("harness: %v", err)
+	}
+	for _, leader := range leaders {
+		fq, err := queue.NewFanOutQueue(walDir(config.GlobalStorageConfig().WAL, p.db, leader), 0)
+		if err != nil {
+			t.Fatalf("harness: %v", err)
+		}
+		part := replica.NewPartition(context.Background(), p.shard, p.family, nodeID, fq, nil, nil)
+		if leader == nodeID {
+			err = part.BuildReplicaForLeader(nodeID, []models.NodeID{nodeID})
+		} else {
+			err = part.BuildReplicaForFollower(leader, nodeID)
+		}
+		if err != nil {
+			t.Fatalf("harness: %v", err)
+		}
+		p.parts[leader] = part
+	}
+	return p
+}
+
+// put appends entry i (which introduces its own names) to the log of the leader.
+func (p *plainNode) put(leader models.NodeID, seq int64, i int) {
+	p.t.Helper()
+	msg, err := message(i, i)
+	if err != nil {
+		p.t.Fatalf("harness: %v", err)
+	}
+	if leader == nodeID {
+		err = p.parts[leader].WriteLog(msg)
+	} else {
+		_, err = p.parts[leader].ReplicaLog(seq, msg)
+	}
+	if err != nil {
+		p.t.Fatalf("harness: append: %v", err)
+	}
+}
+
+// crash copies the node directory (the process dies here) and shuts the live node down.
+func (p *plainNode) crash(img string) {
+	p.t.Helper()
+	if err := crash.CopyTree(p.dir, img); err != nil {
+		p.t.Fatalf("harness: %v", err)
+	}
+	for _, part := range p.parts {
+		part.Stop()
+	}
+	p.n.Close()
+	for _, part := range p.parts {
+		_ = part.Close()
+	}
+}
+
+// recoverPlain restarts a node on an image the production way and waits until the family has applied the
+// logs up to the given sequences; it returns the query cluster and a function which shuts everything down.
+func recoverPlain(t *testing.T, img, db string, want map[models.NodeID]int64) (*node.Cluster, func()) {
+	t.Helper()
+	n, err := node.Start(img)
+	if err != nil {
+		t.Fatalf("recover: %v", err)
+	}
+	walMgr := replica.NewWriteAheadLogManager(context.Background(), config.GlobalStorageConfig().WAL, nodeID, n.Engine, nil, nil)
+	if err := walMgr.Recovery(); err != nil {
+		t.Fatalf("wal recovery: %v", err)
+	}
+	shard, _ := n.Shard(db, 0)
+	family, _ := shard.GetOrCrateDataFamily(baseTime)
+	deadline := time.Now().Add(10 * time.Second)
+	for leader, seq := range want {
+		for family.GetState().ReplicaSequences[int32(leader)] < seq && time.Now().Before(deadline) {
+			time.Sleep(time.Millisecond)
+		}
+	}
+	c := node.NewCluster()
+	c.AddLeaf("leaf:1", n.Engine, "")
+	c.SetLayout(db, node.DBOption(timeutil.Interval(10_000)), map[string][]models.ShardID{"leaf:1": {0}})
+	return c, func() {
+		c.Close()
+		walMgr.Stop()
+		n.Close()
+		_ = walMgr.Close()
+	}
+}
+
+// TestRegression_NamesCreatedAfterFailedMetadataFlush: entry 0 is applied, a metadata flush fails (the
+// table file of the first store cannot be created), entry 1 - new metric / tag value / field - is applied,
+// then a complete flush cycle runs without any fault (FlushMeta, FlushIndex, family.Flush all report
+// success) and the node dies. The stores had kept what the failed flush froze, the second FlushMeta wrote
+// only that; the names of entry 1 are in no durable dictionary, its rows and its log sequence are durable.
+func TestRegression_NamesCreatedAfterFailedMetadataFlush(t *testing.T) {
+	dir := t.TempDir()
+	p := startPlainNode(t, filepath.Join(dir, "node"), nodeID)
+	fail := false
+	table.VerifSetFSHookWithFaults(func(string, string, bool) {}, func(op, _ string) error {
+		if fail && op == "tableCreate" {
+			fail = false
+			return errInjected
+		}
+		return nil
+	})
+	defer table.VerifSetFSHook(nil)
+	d, _ := p.n.Engine.GetDatabase(p.db)
+	p.put(nodeID, 0, 0)
+	replica.VerifReplicaStep(p.parts[nodeID], nodeID)
+	fail = true
+	if err := d.FlushMeta(); err == nil {
+		t.Fatalf("harness: the metadata flush with a failing table file creation reports success")
+	}
+	p.put(nodeID, 1, 1)
+	replica.VerifReplicaStep(p.parts[nodeID], nodeID)
+	if err := d.FlushMeta(); err != nil {
+		t.Fatalf("flushMeta: %v", err)
+	}
+	if err := p.shard.FlushIndex(); err != nil {
+		t.Fatalf("flushIndex: %v", err)
+	}
+	if err := p.family.Flush(); err != nil {
+		t.Fatalf("flush: %v", err)
+	}
+	img := filepath.Join(dir, "image")
+	p.crash(img)
+	table.VerifSetFSHook(nil)
+	c, shutdown := recoverPlain(t, img, p.db, nil)
+	defer shutdown()
+	rs, err := c.Query(p.db, "select f1 from m1 where host='h1' and time>='2023-05-01 10:00:00' and time<='2023-05-01 10:59:59'")
+	res := node.Canon(rs)
+	if got, ok := res[""]["f1"][baseTime+10_000]; err == nil && ok && got == 2 {
+		return // resolves: the finding does not reproduce
+	}
+	what := fmt.Sprintf("entry 1 (names created after a failed FlushMeta; the next FlushMeta, FlushIndex and family flush succeed and persist its rows and log sequence): after crash recovery `where host='h1'` returns %q err=%v", res.String(), err)
+	if ev.Known(sigStale) {
+		ev.KnownFinding("C07", sigStale+": "+what)
+		return
+	}
+	t.Fatalf("%s: %s", sigStale, what)
+}
+
+// TestRegression_ConcurrentReplayOfLogsOfTwoLeaders: the family has the logs of leader 1 (own writes) and
+// leader 2 (replicated), nothing is flushed, the node dies and restarts through WriteAheadLogManager.Recovery.
+// Each log is replayed by its own goroutine (partition.replicaLoop); both call dataFamily.WriteRows on the
+// same memory database at the same time, which nothing serialises (memdb: "single goroutine write family
+// data", "WriteRow must be called after WithLock"). Every entry writes one row of a series of its own.
+// A race: up to 5 rounds are tried.
+func TestRegression_ConcurrentReplayOfLogsOfTwoLeaders(t *testing.T) {
+	const perLog = 150
+	record := func(i int) []byte {
+		block, err := node.Block([]*protoMetricsV1.Metric{{
+			Name: "r", Timestamp: baseTime + int64(i%300)*10_000,
+			Tags:         []*protoMetricsV1.KeyValue{{Key: "host", Value: fmt.Sprintf("h%d", i)}},
+			SimpleFields: []*protoMetricsV1.SimpleField{{Name: "f", Type: protoMetricsV1.SimpleFieldType_DELTA_SUM, Value: float64(i + 1)}},
+		}})
+		if err != nil {
+			t.Fatalf("harness: %v", err)
+		}
+		sw := compress.NewSnappyWriter()
+		_, _ = sw.Write(block)
+		_ = sw.Close()
+		return append([]byte(nil), sw.Bytes()...)
+	}
+	for round := 0; round < 5; round++ {
+		dir := t.TempDir()
+		p := startPlainNode(t, filepath.Join(dir, "node"), nodeID, 2)
+		for k := 0; k < perLog; k++ {
+			if err := p.parts[nodeID].WriteLog(record(2 * k)); err != nil {
+				t.Fatalf("harness: %v", err)
+			}
+			if _, err := p.parts[2].ReplicaLog(int64(k), record(2*k+1)); err != nil {
+				t.Fatalf("harness: %v", err)
+			}
+		}
+		img := filepath.Join(dir, "image")
+		p.crash(img)
+		c, shutdown := recoverPlain(t, img, p.db, map[models.NodeID]int64{nodeID: perLog - 1, 2: perLog - 1})
+		rs, err := c.Query(p.db, "select f from r where time>='2023-05-01 10:00:00' and time<='2023-05-01 10:59:59' group by host limit 1000")
+		var lost []int
+		if err == nil {
+			res := node.Canon(rs)
+			for i := 0; i < 2*perLog; i++ {
+				if got, ok := res[fmt.Sprintf("host=h%d", i)]["f"][baseTime+int64(i%300)*10_000]; !ok || got != float64(i+1) {
+					lost = append(lost, i)
+				}
+			}
+		}
+		func() {
+			// the final flush of the shutdown reads the structures the racing writers have damaged
+			defer func() {
+				if r := recover(); r != nil && err == nil {
+					err = fmt.Errorf("panic while closing the recovered node: %v", r)
+				}
+			}()
+			shutdown()
+		}()
+		if err != nil || len(lost) > 0 {
+			what := fmt.Sprintf("round %d: %d entries in the log of leader 1 and %d in the log of leader 2 (one row of a series of its own each), nothing flushed; after restart and replay %d rows are missing or wrong (entries %v; query err=%v)", round, perLog, perLog, len(lost), lost, err)
+			if ev.Known(sigConc) {
+				ev.KnownFinding("C07", sigConc+": "+what)
+				return
+			}
+			t.Fatalf("%s: %s", sigConc, what)
+		}
+	}
 }
